@@ -80,7 +80,9 @@ CLAIMED['C01'] = dict(
         "p L^beta on every finite state space. The float instance of the same definition is run by vm_compute against real Chain.step() "
         "calls captured at the kernel boundary for 10 proposal mixes, plus threshold-perturbed uniforms; 60-digit decimal oracle and exact "
         "lattice transition matrices on the real code.",
-   note=NUM_NOTE + "q in the statement is the reported proposal density; that it is the law of the jumps is C02.",
+   note=NUM_NOTE + "q in the statement is the reported proposal density; that it is the law of the jumps is C02. Source tie (Props/C01_src.v): "
+        "_acceptance_ratio and the forced reject of Chain.step as written in /repo today are translated to Gallina over the numeric class on "
+        "every run (tools/py2coq_num.py, fail-closed) and proved equal to mh_logar / mh_decide / mh_step over the reals for all inputs.",
    technique="Coq proof over Reals (algebra of exp/ln/Rmin, finite sums) + vm_compute correspondence of the float instance",
    ref="DESIGN.md section 3, C01")
 CLAIMED['C03'] = dict(
@@ -89,7 +91,10 @@ CLAIMED['C03'] = dict(
         "over the reals each exchange is accepted iff u <= min(1,(L_a/L_b)^(beta_k-beta_j)) with the slots' betas, which is the ratio of the joint "
         "tempered target; exchange kernels and their composition in sweep order leave the target invariant on every finite configuration space. "
         "The float instance is run against real swap_temperatures() calls driven down every decision path; exact sweep kernels Pi K = Pi on the real code.",
-   note=NUM_NOTE, technique="Coq proof (loop-invariant refinement, Reals algebra, finite-sum invariance) + vm_compute correspondence on every decision path",
+   note=NUM_NOTE + "Source tie (Props/C03_src.v): the per-pair kernel inside the loop of swap_temperatures (log-ratio, no uniform above 0, swap iff "
+        "u <= exp(logar)) as written in /repo today is translated on every run (tools/py2coq_num.py, which also checks the loop header and tj = tk-1) "
+        "and proved equal to pair_logar / swap_decide over the reals; the loop's bookkeeping (index array, carried loglk) is tied by the correspondence only.",
+   technique="Coq proof (loop-invariant refinement, Reals algebra, finite-sum invariance) + vm_compute correspondence on every decision path",
    ref="DESIGN.md section 3, C03")
 
 CLAIMED['C17'] = dict(
